@@ -116,6 +116,8 @@ impl SolarDay {
     // K (C01/K6 + V3): before <=> smaller day number
     #[verifier::external_body]
     fn is_before(&self, target: SolarDay) -> (r: bool) ensures r == (self.jdn() < target.jdn()) { unimplemented!() }
+    #[verifier::external_body]
+    fn is_after(&self, target: SolarDay) -> (r: bool) ensures r == (self.jdn() > target.jdn()) { unimplemented!() }
     // K (C01/K4)
     #[verifier::external_body]
     fn subtract(&self, target: SolarDay) -> (r: isize)
@@ -159,6 +161,8 @@ impl SolarTime {
     // K (C12): before <=> earlier absolute second
     #[verifier::external_body]
     fn is_before(&self, target: SolarTime) -> (r: bool) ensures r == (self.sec() < target.sec()) { unimplemented!() }
+    #[verifier::external_body]
+    fn is_after(&self, target: SolarTime) -> (r: bool) ensures r == (self.sec() > target.sec()) { unimplemented!() }
 
     //@EXTRACT file=src/tyme/solar.rs impl="impl SolarTime" fn=get_term loops=2
     //@sig
